@@ -31,7 +31,31 @@ CHECKS = {
  "C20": ("trace validation: colour slice of the parametrised result vs result on the network instantiated by the harness vs Sat in that colour (Trace_Sem 'slice')",
          "All colours of small networks; instantiation is done from the truth-table bits, independent of the library's witness picker."),
 }
+SYN_NOTE = ("Trusted: TLC; character classes are Rust's char::is_alphanumeric / is_whitespace as recorded by the harness. "
+            "The lexical conventions the README leaves open are fixed in the header of spec/Syntax.tla. Bounded enumeration plus seeded random inputs.")
+SYN = {
+ "C05": ("TLA+ lexical grammar and precedence-climbing parser (Syntax.Lex / Parse) evaluated by TLC on the recorded characters; trace validation of try_tokenize_* and parse_* (Trace_Syn 'c05')",
+         "All token sequences up to a length bound (rendered to text) and seeded random / mutated / unicode strings: tokens and tree must be the ones the documented grammar dictates, rejection exactly when not derivable, plain = extended on plain input."),
+ "C06": ("TLA+ Render / Height evaluated by TLC node by node on trees built with the public constructors and on parser output; print-parse round trip (Trace_Syn 'c06build', 'c06parse')",
+         "All trees up to a size bound, random deep trees, and trees produced by the parsers."),
+ "C07": ("TLA+ WellScoped / Rename / de Bruijn normal form (Scope.tla) evaluated by TLC on recorded preprocessing results (Trace_Scope 'c07')",
+         "Acceptance <=> well-scoped and known propositions; result alpha-equivalent, depth-named, minimal number of names, idempotent; also parse_and_minimize_*, collect_unique_*, check_hctl_var_support."),
+ "C09": ("TLA+ alpha-equivalence of open sub-formulae by brute-force bijections and independent occurrence counting (Scope.tla) on recorded canonical forms and duplicate maps (Trace_Scope 'c09canon', 'c09dups')",
+         "Every pair of sub-formulae of every generated list; every reported duplicate."),
+}
 checks = []
+for pid, (tech, text) in SYN.items():
+    checks.append({
+        "property_id": pid,
+        "quick_cmd": "./check %s --tier quick" % pid,
+        "thorough_cmd": "./check %s --tier thorough" % pid,
+        "evidence_file": "evidence/%s.json" % pid,
+        "replay_cmd_template": "./check %s --replay {path}" % pid,
+        "engine": "tlc-trace-syn",
+        "level_claimed": {"category": "model_checking", "text": text, "design_ref": "DESIGN.md section 8 (%s), 14" % pid},
+        "level_note": SYN_NOTE,
+        "technique": tech,
+    })
 for pid, (tech, text) in CHECKS.items():
     checks.append({
         "property_id": pid,
@@ -54,12 +78,14 @@ m = {
            "baseline_off_cmd": "cd /repo && cargo test --workspace --no-fail-fast --offline",
            "source_commits": hook_commits, "add_only": True},
  "engines": [
+   {"name": "tlc-trace-syn", "path": "spec/Trace_Syn.tla, spec/Trace_Scope.tla", "serves_properties": sorted(SYN),
+    "kind_free_text": "TLC evaluates Syntax.tla / Scope.tla on events recorded from the real tokenizer, parser, constructors, preprocessing, canonisation and duplicate marking (hctl-conf syn)"},
    {"name": "tlc-trace-sem", "path": "spec/Trace_Sem.tla", "serves_properties": sorted(CHECKS),
     "kind_free_text": "TLC evaluates the TLA+ reference semantics (BoolNet.tla, Hctl.tla) on API-level traces recorded from the real entry points by harness/ (hctl-conf sem)"},
  ],
  "checks": checks,
  "not_applicable": [{"property_id": p["id"], "reason": "check not built yet (build in progress; see DESIGN.md section 8 for the plan)"}
-                    for p in props if p["id"] not in CHECKS],
+                    for p in props if p["id"] not in CHECKS and p["id"] not in SYN],
  "notes": "Driver: ./check <ID> [--tier quick|thorough] [--seed N] [--replay FILE]; exit 0 held / 1 VIOLATION / 2 tool error. Known findings: known_findings.json.",
 }
 json.dump(m, open(os.path.join(VERIF, "MANIFEST.json"), "w"), indent=1)
